@@ -46,7 +46,7 @@ ASSUMPTIONS = [
 
 
 def budget(tier):
-    return 3000 if tier == "quick" else 250000
+    return 4500 if tier == "quick" else 250000
 
 
 # ---------------------------------------------------------------------------------- generate
